@@ -43,6 +43,30 @@
                              verdict is remembered under the claimed block hash (`memo`) and reused
                              for a later answer that claims the same hash.
 
+   CLASSES.  Class definitions are a dimension of chain content.  A block MENTIONS classes (ment[c] = the tags of
+   the blocks mentioning class c); since a tag determines its ancestry, so does it determine what a mention is:
+   the first mention of c on a chain is its DECLARATION (a Cairo-0 or Sierra declare), every later one a USE (a
+   contract of class c is deployed).  So two branches may declare the same class hash at different heights, a reorg
+   reverts the declaring block, and the new branch declares the class again, never mentions it, or merely uses it
+   (when the declaring block survived) - all from one assignment of mentions to tags.
+   A fetched block is (header + transactions, state update, NewClasses); NewClasses is computed by the DATA SOURCE
+   (sync/data_source.go: fetchUnknownClasses) from the classes the state update mentions MINUS what the local head
+   state has at fetch time.  Fetching runs ahead of storing: block n+2 is fetched while the head is n, so a class
+   declared by the in-flight block n+1 is downloaded again for n+2; Store keeps the first definition (StoreDefs).
+   Store writes the definitions in NewClasses; it FAILS (state root mismatch) when a declared Sierra class has no
+   definition in NewClasses, and stores the block WITHOUT the definition when a Cairo-0 class is missing.  Reverting
+   a block removes the definitions of the classes it declared.  A revert always ends in a stream reset, so no answer
+   computed against the state before a revert reaches Store after it (KnownIsCurrent, NewClassesSufficient).
+   Not modelled: the legacy class that is never declared but introduced by a DEPLOYED contract (pre-0.9 DEPLOY
+   transactions).  To the fetch step it is one more mentioned class (the pass over the classes of deployed contracts);
+   as coded State.Revert (both backends) removes only classes of the declared lists, so its definition survives a
+   revert of the block that introduced it - the recorder uses such classes only in runs whose source never reorgs.
+     RememberKnown          FALSE = the code as it is: every fetch asks the local state anew.  TRUE = the fetch layer
+                            remembers the hashes it found in the local state (`known`) and never looks them up or
+                            downloads them again; nothing forgets them when blocks are reverted.  TLC must find
+                            StoredClassesComplete violated (Cairo-0, Sync_x_known.cfg) and convergence violated
+                            (Sierra: Store refuses the honest block for ever, Sync_x_known_sierra.cfg).
+
    Node (one action per code step; the numbers are lines of sync/sync.go at the pinned commit):
      Spawn                 syncBlocks:509  fetchers.Go(fetcherTask(nextHeight)); nextHeight++
      FetchExit / FetchCheck / FetchCall   fetcherTask:183-187  ctx check; dataSource.BlockByNumber
@@ -105,7 +129,13 @@ CONSTANTS
   FixH13,
   FixRevertVerify,
   FixUnderflow,
-  Fine             \* TRUE: apply / acknowledge / post-process are separate steps
+  Fine,            \* TRUE: apply / acknowledge / post-process are separate steps
+  ClassA, ClassB,  \* tags of the blocks that MENTION class 1 / class 2 (see "Classes" above)
+  SierraSet,       \* which of the classes 1, 2 are Sierra classes (the others are Cairo-0 classes)
+  RememberKnown,   \* FALSE = the code as it is; TRUE = the fetch layer remembers class hashes it found in the
+                   \* local state and never asks the state (or the source) about them again (expected violation)
+  Windows          \* TRUE (trace validation only): NewClasses of an answer is what was recorded; it must be
+                   \* explained by what the local state held between the request and its return
 
 VARIABLES
   versions, nextTag, srcSteps, nReorgs, faults,           \* source / environment
@@ -116,15 +146,20 @@ VARIABLES
   revSince, seenVers,                                      \* history: reverted since last store; versions heard from
   stopping, restarts,                                      \* the Synchronizer's context is cancelled; restarts so far
   memo,                                                    \* claimed hashes (tags) with a remembered verdict (VerdictPerAnswer = FALSE only)
-  tainted                                                  \* blocks ever stored with content that is not the source's
+  tainted,                                                 \* blocks ever stored with content that is not the source's
+  ment, sierra,                                            \* chain content: ment[c] = tags of the blocks mentioning class c; the Sierra classes
+  defs,                                                    \* the node's class table: defs[c] = height its definition was stored at (-1: none)
+  known                                                    \* class hashes the fetch layer remembers as known (RememberKnown = TRUE only)
 
-srcVars  == <<versions, nextTag, srcSteps, nReorgs>>
+srcVars  == <<versions, nextTag, srcSteps, nReorgs, ment, sierra>>
 pipeVars == <<cancelled, nextFetch, weff, fq, vq, rv, sp>>
 modeVars == <<highest, catchUp, poll, polls>>
 lifeVars == <<stopping, restarts>>
 auxVars  == <<memo, tainted>>
+clsVars  == <<defs, known>>
 vars == <<versions, nextTag, srcSteps, nReorgs, faults, local, cancelled, nextFetch, weff, fq, vq, rv, sp,
-          highest, catchUp, poll, polls, curr, revSince, seenVers, stopping, restarts, memo, tainted>>
+          highest, catchUp, poll, polls, curr, revSince, seenVers, stopping, restarts, memo, tainted,
+          ment, sierra, defs, known>>
 
 INF == 1000000                       \* uint64 underflow of "height - 1" / "height - 2"
 Prefix(c, n) == SubSeq(c, 1, n)
@@ -147,9 +182,41 @@ NoSp    == [on |-> FALSE, acked |-> FALSE, tag |-> 0, h |-> 0, rid |-> 0, hs |->
 NoReorg == [on |-> FALSE, s |-> 0, e |-> 0]
 IdlePoll == [st |-> "idle", v0 |-> 0, rid |-> 0, got |-> -1]
 NewTask(h) == [h |-> h, st |-> "run", v0 |-> 0, rid |-> 0, L |-> 0, kind |-> "none", blk |-> 0, bh |-> 0,
-               bad |-> FALSE, forged |-> FALSE, alt |-> FALSE, keep |-> FALSE, lv |-> 0]
+               bad |-> FALSE, forged |-> FALSE, alt |-> FALSE, keep |-> FALSE, lv |-> 0,
+               nc |-> {}, seen |-> {}, always |-> {}]
 
-Init ==
+-----------------------------------------------------------------------------
+(* Classes *)
+Classes == 1..Len(ment)
+Mentions(t) == {c \in Classes : t \in ment[c]}
+KnownIn(d) == {c \in Classes : d[c] # -1}
+Known == KnownIn(defs)                                   \* the classes the local state has a definition of
+MentionedOn(chain) == {c \in Classes : \E k \in 1..Len(chain) : chain[k] \in ment[c]}
+\* what block t DECLARES when it is (stored as / reverted from being) the successor of the last block of `chain`
+DeclaresOn(chain, t) == Mentions(t) \ MentionedOn(chain)
+FirstAt(chain, c) ==
+  LET ks == {k \in 1..Len(chain) : chain[k] \in ment[c]}
+  IN IF ks = {} THEN -1 ELSE (CHOOSE k \in ks : \A j \in ks : k <= j) - 1
+ExpectedDefs(chain) == [c \in Classes |-> FirstAt(chain, c)]
+\* the fetch step of the data source (sync/data_source.go fetchUnknownClasses): every class the state update
+\* mentions (classes of deployed contracts, declared Cairo-0 classes, declared Sierra classes) is looked up in the
+\* local HEAD state of that moment; what is not found there is downloaded and becomes NewClasses
+LookupNow(t) == {c \in Mentions(t) : defs[c] = -1 /\ c \notin known}
+Remember(t) == IF RememberKnown THEN known \cup (Mentions(t) \cap Known) ELSE known
+\* Blockchain.Store / State.Update: a definition in NewClasses is written unless the class already has one (the
+\* first declaration height stays); the class-trie leaf of a DECLARED Sierra class is only written when NewClasses
+\* carries its definition - without it the new state root does not match and Store fails
+StoreDefs(h, nc) == [c \in Classes |-> IF c \in nc /\ defs[c] = -1 THEN h ELSE defs[c]]
+SierraOK(t, nc) == (DeclaresOn(local, t) \cap sierra) \subseteq nc
+\* RevertHead / State.Revert: the definitions of the classes the head block declared, stored at its height, go
+RevertDefs ==
+  LET h == Len(local) - 1 IN
+  [c \in Classes |-> IF c \in DeclaresOn(Prefix(local, h), HeadTag(local)) /\ defs[c] = h THEN -1 ELSE defs[c]]
+\* trace validation: what the local state held while a request was out
+WinStore(q, kn) == IF Windows THEN [i \in 1..Len(q) |-> IF q[i].st = "wait" THEN [q[i] EXCEPT !.seen = @ \cup kn] ELSE q[i]] ELSE q
+WinRevert(q, kn) == IF Windows THEN [i \in 1..Len(q) |-> IF q[i].st = "wait" THEN [q[i] EXCEPT !.always = @ \cap kn] ELSE q[i]] ELSE q
+
+InitWith(m, sr) ==
   /\ versions = << [j \in 1..InitLen |-> j] >> /\ nextTag = InitLen + 1 /\ srcSteps = 0 /\ nReorgs = 0 /\ faults = 0
   /\ local = <<>>
   /\ cancelled = FALSE /\ nextFetch = 0 /\ weff = 1 /\ fq = <<>> /\ vq = <<>> /\ rv = NoRv /\ sp = NoSp
@@ -157,6 +224,9 @@ Init ==
   /\ curr = NoReorg /\ revSince = <<>> /\ seenVers = {}
   /\ stopping = FALSE /\ restarts = 0
   /\ memo = {} /\ tainted = {}
+  /\ ment = m /\ sierra = sr
+  /\ defs = [c \in 1..Len(m) |-> -1] /\ known = {}
+Init == InitWith(<<ClassA, ClassB>>, SierraSet)
 
 -----------------------------------------------------------------------------
 (* Source *)
@@ -174,7 +244,7 @@ SrcSet(c) ==
   /\ nextTag' = HeadTag(c) + 1
   /\ srcSteps' = srcSteps + 1
   /\ nReorgs' = IF Len(c) > Len(Cur) /\ Prefix(c, Len(Cur)) = Cur THEN nReorgs ELSE nReorgs + 1
-  /\ UNCHANGED <<faults, local, pipeVars, modeVars, curr, revSince, seenVers, lifeVars, auxVars>>
+  /\ UNCHANGED <<ment, sierra, faults, local, pipeVars, modeVars, curr, revSince, seenVers, lifeVars, auxVars, clsVars>>
 
 Fresh(n) == [j \in 1..n |-> nextTag + j - 1]
 
@@ -261,26 +331,41 @@ Spawn ==
   /\ ~cancelled /\ Running(fq) < weff /\ Len(fq) < weff + 2
   /\ fq' = Append(fq, NewTask(nextFetch))
   /\ nextFetch' = nextFetch + 1
-  /\ UNCHANGED <<srcVars, auxVars, lifeVars, faults, local, cancelled, weff, vq, rv, sp, modeVars, curr, revSince, seenVers>>
+  /\ UNCHANGED <<srcVars, auxVars, clsVars, lifeVars, faults, local, cancelled, weff, vq, rv, sp, modeVars, curr, revSince, seenVers>>
 
 FetchExit(i) ==                       \* top of the retry loop: ctx.Done
   /\ fq[i].st = "run" /\ cancelled
   /\ SetFq(i, [fq[i] EXCEPT !.st = "done", !.kind = "none"])
-  /\ UNCHANGED <<srcVars, auxVars, lifeVars, faults, local, cancelled, nextFetch, weff, vq, rv, sp, modeVars, curr, revSince, seenVers>>
+  /\ UNCHANGED <<srcVars, auxVars, clsVars, lifeVars, faults, local, cancelled, nextFetch, weff, vq, rv, sp, modeVars, curr, revSince, seenVers>>
 
 FetchCheck(i) ==                      \* top of the retry loop: ctx not done (a reset may still slip in before the call)
   /\ fq[i].st = "run" /\ ~cancelled
   /\ SetFq(i, [fq[i] EXCEPT !.st = "go"])
-  /\ UNCHANGED <<srcVars, auxVars, lifeVars, faults, local, cancelled, nextFetch, weff, vq, rv, sp, modeVars, curr, revSince, seenVers>>
+  /\ UNCHANGED <<srcVars, auxVars, clsVars, lifeVars, faults, local, cancelled, nextFetch, weff, vq, rv, sp, modeVars, curr, revSince, seenVers>>
 
 FetchCall(i, rid) ==                  \* observable: request BlockByNumber(h)
   /\ fq[i].st = "go"
-  /\ SetFq(i, [fq[i] EXCEPT !.st = "wait", !.v0 = Len(versions), !.rid = rid])
-  /\ UNCHANGED <<srcVars, auxVars, lifeVars, faults, local, cancelled, nextFetch, weff, vq, rv, sp, modeVars, curr, revSince, seenVers>>
+  /\ SetFq(i, [fq[i] EXCEPT !.st = "wait", !.v0 = Len(versions), !.rid = rid,
+                             !.seen = IF Windows THEN Known ELSE {}, !.always = IF Windows THEN Known ELSE {}])
+  /\ UNCHANGED <<srcVars, auxVars, clsVars, lifeVars, faults, local, cancelled, nextFetch, weff, vq, rv, sp, modeVars, curr, revSince, seenVers>>
 
-FetchReturn(i, resp) ==               \* observable: the answer is delivered
+\* NewClasses of an answer.  src = "prod": computed by the data source from the local state.  As coded the lookup
+\* is one step with the delivery (a sound reduction: the answer is visible to nobody before BlockByNumber returns);
+\* with Windows every class left out must have been in the local state at some moment while the request was out, every
+\* class downloaded must have been missing at some moment.  src = "script": a data source that hands over every
+\* class the block mentions.
+NcLegal(task, resp, nc, src) ==
+  IF resp.r = "err" THEN nc = {}
+  ELSE IF src = "script" THEN nc = Mentions(resp.tag)
+  ELSE IF Windows THEN /\ (Mentions(resp.tag) \ task.seen) \subseteq nc
+                       /\ nc \subseteq (Mentions(resp.tag) \ task.always)
+  ELSE nc = LookupNow(resp.tag)
+
+FetchReturn(i, resp, nc, src) ==      \* observable: the answer is delivered (BlockByNumber returns)
   /\ fq[i].st = "wait"
   /\ LegalBlockResp(fq[i].v0, fq[i].h, resp, cancelled)
+  /\ NcLegal(fq[i], resp, nc, src)
+  /\ known' = IF resp.r = "err" \/ src = "script" THEN known ELSE Remember(resp.tag)
   /\ faults' = faults + BlockRespCost(fq[i].v0, fq[i].h, resp, cancelled)
   /\ seenVers' = Heard(resp)
   /\ IF resp.r = "err"
@@ -289,20 +374,21 @@ FetchReturn(i, resp) ==               \* observable: the answer is delivered
                                  !.bad = (resp.r = "bad"),
                                  !.forged = (resp.r = "fg" /\ RootBites(resp.tag, resp.corr)),
                                  !.alt = (resp.r \in {"bad", "fg"}),
-                                 !.keep = (~VerdictPerAnswer /\ KeepsHash(resp))])
-  /\ UNCHANGED <<srcVars, auxVars, lifeVars, local, cancelled, nextFetch, weff, vq, rv, sp, modeVars, curr, revSince>>
+                                 !.keep = (~VerdictPerAnswer /\ KeepsHash(resp)),
+                                 !.nc = nc])
+  /\ UNCHANGED <<srcVars, auxVars, defs, lifeVars, local, cancelled, nextFetch, weff, vq, rv, sp, modeVars, curr, revSince>>
 
 IsRevFast(i) ==                       \* exit 1 (also: Height() fails on an empty chain)
   /\ fq[i].st = "chk"
   /\ (Len(local) = 0 \/ Len(local) # fq[i].h)
   /\ SetFq(i, [fq[i] EXCEPT !.st = "run"])
-  /\ UNCHANGED <<srcVars, auxVars, lifeVars, faults, local, cancelled, nextFetch, weff, vq, rv, sp, modeVars, curr, revSince, seenVers>>
+  /\ UNCHANGED <<srcVars, auxVars, clsVars, lifeVars, faults, local, cancelled, nextFetch, weff, vq, rv, sp, modeVars, curr, revSince, seenVers>>
 
 IsRevCall(i, rid) ==                  \* observable: request BlockHeaderLatest
   /\ fq[i].st = "chk"
   /\ Len(local) > 0 /\ Len(local) = fq[i].h
   /\ SetFq(i, [fq[i] EXCEPT !.st = "lwait", !.L = Len(local) - 1, !.v0 = Len(versions), !.rid = rid])
-  /\ UNCHANGED <<srcVars, auxVars, lifeVars, faults, local, cancelled, nextFetch, weff, vq, rv, sp, modeVars, curr, revSince, seenVers>>
+  /\ UNCHANGED <<srcVars, auxVars, clsVars, lifeVars, faults, local, cancelled, nextFetch, weff, vq, rv, sp, modeVars, curr, revSince, seenVers>>
 
 IsRevReturn(i, resp) ==               \* observable: exits 2 and 3
   /\ fq[i].st = "lwait"
@@ -318,7 +404,7 @@ IsRevReturn(i, resp) ==               \* observable: exits 2 and 3
           ELSE SetFq(i, [fq[i] EXCEPT !.st = "done", !.kind = "revert",
                                        !.lv = IF resp.h = 0 THEN (IF FixUnderflow THEN 0 ELSE INF)
                                              ELSE resp.h - 1])
-  /\ UNCHANGED <<srcVars, auxVars, lifeVars, local, cancelled, nextFetch, weff, vq, rv, sp, modeVars, curr, revSince>>
+  /\ UNCHANGED <<srcVars, auxVars, clsVars, lifeVars, local, cancelled, nextFetch, weff, vq, rv, sp, modeVars, curr, revSince>>
 
 \* fetch callbacks run in submission order; each submits a verifier task (blocks while the pool is full)
 FetchCallback ==
@@ -328,12 +414,12 @@ FetchCallback ==
   \* h of a verifier task is the NUMBER OF THE BLOCK it carries (not the height that was asked for)
   /\ vq' = CASE fq[1].kind = "block"  -> Append(vq, [kind |-> "block", blk |-> fq[1].blk, bad |-> fq[1].bad,
                                                    forged |-> fq[1].forged, alt |-> fq[1].alt, keep |-> fq[1].keep,
-                                                   h |-> fq[1].bh, rid |-> fq[1].rid, st |-> "run", lv |-> 0])
+                                                   h |-> fq[1].bh, rid |-> fq[1].rid, st |-> "run", lv |-> 0, nc |-> fq[1].nc])
              [] fq[1].kind = "revert" -> Append(vq, [kind |-> "revert", blk |-> 0, bad |-> FALSE, forged |-> FALSE,
                                                    alt |-> FALSE, keep |-> FALSE,
-                                                   h |-> fq[1].h, rid |-> 0, st |-> "done", lv |-> fq[1].lv])
+                                                   h |-> fq[1].h, rid |-> 0, st |-> "done", lv |-> fq[1].lv, nc |-> {}])
              [] OTHER -> vq
-  /\ UNCHANGED <<srcVars, auxVars, lifeVars, faults, local, cancelled, nextFetch, weff, rv, sp, modeVars, curr, revSince, seenVers>>
+  /\ UNCHANGED <<srcVars, auxVars, clsVars, lifeVars, faults, local, cancelled, nextFetch, weff, rv, sp, modeVars, curr, revSince, seenVers>>
 
 -----------------------------------------------------------------------------
 (* Verifiers; their callbacks (store / revert) run in submission order on one goroutine *)
@@ -347,7 +433,7 @@ VerifyDone(i) ==
   /\ LET hit == ~VerdictPerAnswer /\ vq[i].bad /\ vq[i].keep /\ vq[i].blk \in memo IN
      /\ vq' = [vq EXCEPT ![i].st = "done", ![i].bad = vq[i].bad /\ ~hit]
      /\ memo' = IF ~VerdictPerAnswer /\ ~vq[i].alt THEN memo \cup {vq[i].blk} ELSE memo
-  /\ UNCHANGED <<srcVars, tainted, lifeVars, faults, local, cancelled, nextFetch, weff, fq, rv, sp, modeVars, curr, revSince, seenVers>>
+  /\ UNCHANGED <<srcVars, tainted, clsVars, lifeVars, faults, local, cancelled, nextFetch, weff, fq, rv, sp, modeVars, curr, revSince, seenVers>>
 
 CallbackReady == ~rv.on /\ ~sp.on /\ Len(vq) > 0 /\ vq[1].st = "done"
 StartRevert(lv, why) == rv' = [NoRv EXCEPT !.on = TRUE, !.lv = lv, !.st = "iter", !.why = why]
@@ -355,20 +441,20 @@ StartRevert(lv, why) == rv' = [NoRv EXCEPT !.on = TRUE, !.lv = lv, !.st = "iter"
 VerifyFail ==                         \* sanity check failed: resetStreams()
   /\ CallbackReady /\ vq[1].kind = "block" /\ vq[1].bad
   /\ vq' = Tail(vq) /\ cancelled' = TRUE
-  /\ UNCHANGED <<srcVars, auxVars, lifeVars, faults, local, nextFetch, weff, fq, rv, sp, modeVars, curr, revSince, seenVers>>
+  /\ UNCHANGED <<srcVars, auxVars, clsVars, lifeVars, faults, local, nextFetch, weff, fq, rv, sp, modeVars, curr, revSince, seenVers>>
 
 \* storeTask looks at the context first and calls Store afterwards; a stop of the node may fall in between
 \* (a stream reset cannot: resets come from this very goroutine).  Fine = TRUE keeps the two apart.
 StoreCheck ==                         \* storeTask: ctx not done
   /\ Fine /\ CallbackReady /\ vq[1].kind = "block" /\ ~vq[1].bad /\ ~cancelled /\ ~sp.ck
   /\ sp' = [sp EXCEPT !.ck = TRUE]
-  /\ UNCHANGED <<srcVars, auxVars, lifeVars, faults, local, cancelled, nextFetch, weff, fq, vq, rv, modeVars, curr, revSince, seenVers>>
+  /\ UNCHANGED <<srcVars, auxVars, clsVars, lifeVars, faults, local, cancelled, nextFetch, weff, fq, vq, rv, modeVars, curr, revSince, seenVers>>
 PassedCtxCheck == IF Fine THEN sp.ck ELSE ~cancelled
 
 StoreSkip ==                          \* storeTask sees ctx.Done
   /\ CallbackReady /\ vq[1].kind = "block" /\ ~vq[1].bad /\ cancelled /\ ~sp.ck
   /\ vq' = Tail(vq)
-  /\ UNCHANGED <<srcVars, auxVars, lifeVars, faults, local, cancelled, nextFetch, weff, fq, rv, sp, modeVars, curr, revSince, seenVers>>
+  /\ UNCHANGED <<srcVars, auxVars, clsVars, lifeVars, faults, local, cancelled, nextFetch, weff, fq, rv, sp, modeVars, curr, revSince, seenVers>>
 
 StoreErr ==                           \* any error but ErrParentDoesNotMatchHead: "expected block #n" (a block of
                                       \* another height), or a state-root check refusing a forged successor
@@ -376,8 +462,11 @@ StoreErr ==                           \* any error but ErrParentDoesNotMatchHead
   /\ CallbackReady /\ vq[1].kind = "block" /\ ~vq[1].bad /\ PassedCtxCheck
   /\ \/ vq[1].h # Len(local)
      \/ (vq[1].forged /\ ParentOf(vq[1].blk) = HeadTag(local))
+     \* the definition of a Sierra class the block declares is not among NewClasses: its class-trie leaf is not
+     \* written, the new state root does not match
+     \/ (vq[1].h = Len(local) /\ ParentOf(vq[1].blk) = HeadTag(local) /\ ~SierraOK(vq[1].blk, vq[1].nc))
   /\ vq' = Tail(vq) /\ cancelled' = TRUE /\ sp' = NoSp
-  /\ UNCHANGED <<srcVars, auxVars, lifeVars, faults, local, nextFetch, weff, fq, rv, modeVars, curr, revSince, seenVers>>
+  /\ UNCHANGED <<srcVars, auxVars, clsVars, lifeVars, faults, local, nextFetch, weff, fq, rv, modeVars, curr, revSince, seenVers>>
 
 StoreMismatch ==                      \* ErrParentDoesNotMatchHead -> revertTask(n-2)  [H13]
   /\ CallbackReady /\ vq[1].kind = "block" /\ ~vq[1].bad /\ PassedCtxCheck
@@ -385,7 +474,7 @@ StoreMismatch ==                      \* ErrParentDoesNotMatchHead -> revertTask
   /\ vq' = Tail(vq) /\ sp' = NoSp
   /\ LET n == vq[1].h IN
      StartRevert(IF FixH13 THEN n - 1 ELSE (IF n >= 2 THEN n - 2 ELSE INF), "parent")
-  /\ UNCHANGED <<srcVars, auxVars, lifeVars, faults, local, cancelled, nextFetch, weff, fq, modeVars, curr, revSince, seenVers>>
+  /\ UNCHANGED <<srcVars, auxVars, clsVars, lifeVars, faults, local, cancelled, nextFetch, weff, fq, modeVars, curr, revSince, seenVers>>
 
 \* what storeTask does after the listener: catch-up mode switch (resets the streams), highest block,
 \* reorg notification (currReorg is cleared) and newHeads notification.  hs is the value of
@@ -402,35 +491,40 @@ PostOps(n, hs) ==
 StoreApply ==                         \* Blockchain.Store returned nil: the chain has a new head
   /\ CallbackReady /\ vq[1].kind = "block" /\ ~vq[1].bad /\ ~vq[1].forged /\ PassedCtxCheck
   /\ vq[1].h = Len(local) /\ ParentOf(vq[1].blk) = HeadTag(local)
+  /\ SierraOK(vq[1].blk, vq[1].nc)
   /\ vq' = Tail(vq)
   /\ local' = Append(local, vq[1].blk)
+  /\ defs' = StoreDefs(vq[1].h, vq[1].nc)
+  /\ fq' = WinStore(fq, KnownIn(defs'))
   /\ tainted' = IF vq[1].alt THEN tainted \cup {vq[1].blk} ELSE tainted   \* what went into the database
   /\ IF Fine
      THEN /\ sp' = [on |-> TRUE, acked |-> FALSE, tag |-> vq[1].blk, h |-> vq[1].h, rid |-> vq[1].rid, hs |-> -1, ck |-> FALSE]
           /\ UNCHANGED <<cancelled, catchUp, highest, curr, revSince>>
      ELSE PostOps(vq[1].h, highest) /\ UNCHANGED sp
-  /\ UNCHANGED <<srcVars, memo, lifeVars, faults, nextFetch, weff, fq, rv, poll, polls, seenVers>>
+  /\ UNCHANGED <<srcVars, memo, known, lifeVars, faults, nextFetch, weff, rv, poll, polls, seenVers>>
 
 StoreAck ==                           \* observable: Stored(b) (OnSyncStepDone(OpStore))
   /\ sp.on /\ ~sp.acked
   /\ sp' = [sp EXCEPT !.acked = TRUE, !.hs = highest]      \* highestBlockHeader.Load() follows the listener
-  /\ UNCHANGED <<srcVars, auxVars, lifeVars, faults, local, cancelled, nextFetch, weff, fq, vq, rv, modeVars, curr, revSince, seenVers>>
+  /\ UNCHANGED <<srcVars, auxVars, clsVars, lifeVars, faults, local, cancelled, nextFetch, weff, fq, vq, rv, modeVars, curr, revSince, seenVers>>
 
 StorePost ==
   /\ sp.on /\ sp.acked
   /\ PostOps(sp.h, sp.hs)
   /\ sp' = NoSp
-  /\ UNCHANGED <<srcVars, auxVars, lifeVars, faults, local, nextFetch, weff, fq, vq, rv, poll, polls, seenVers>>
+  /\ UNCHANGED <<srcVars, auxVars, clsVars, lifeVars, faults, local, nextFetch, weff, fq, vq, rv, poll, polls, seenVers>>
 
 RevertStart ==                        \* the callback built by fetcherTask after isReverting said "reorg"
   /\ CallbackReady /\ vq[1].kind = "revert"
   /\ vq' = Tail(vq)
   /\ StartRevert(vq[1].lv, "latest")
-  /\ UNCHANGED <<srcVars, auxVars, lifeVars, faults, local, cancelled, nextFetch, weff, fq, sp, modeVars, curr, revSince, seenVers>>
+  /\ UNCHANGED <<srcVars, auxVars, clsVars, lifeVars, faults, local, cancelled, nextFetch, weff, fq, sp, modeVars, curr, revSince, seenVers>>
 
 \* revertHead(): RevertHead + currReorg bookkeeping
 RevertHeadOp ==
   /\ local' = Prefix(local, Len(local) - 1)
+  /\ defs' = RevertDefs
+  /\ fq' = WinRevert(fq, KnownIn(defs'))
   /\ curr' = IF curr.on THEN [curr EXCEPT !.s = HeadTag(local)]
              ELSE [on |-> TRUE, s |-> HeadTag(local), e |-> HeadTag(local)]
   /\ revSince' = Append(revSince, HeadTag(local))
@@ -448,24 +542,25 @@ EndTask ==
 RevertBreak ==                        \* HeadsHeader fails on an empty chain
   /\ rv.on /\ rv.st = "iter" /\ Len(local) = 0
   /\ EndTask
-  /\ UNCHANGED <<srcVars, auxVars, lifeVars, faults, local, nextFetch, weff, fq, vq, sp, modeVars, curr, revSince, seenVers>>
+  /\ UNCHANGED <<srcVars, auxVars, clsVars, lifeVars, faults, local, nextFetch, weff, fq, vq, sp, modeVars, curr, revSince, seenVers>>
 
 RevertUncond ==                       \* the head is above lastPossiblyValidHeight: RevertHead took effect
   /\ rv.on /\ rv.st = "iter" /\ Len(local) > 0 /\ Len(local) - 1 > rv.lv
   /\ RevertHeadOp
   /\ AfterRevert(TRUE, "uncond")
-  /\ UNCHANGED <<srcVars, auxVars, lifeVars, faults, nextFetch, weff, fq, vq, sp, modeVars, seenVers>>
+  /\ UNCHANGED <<srcVars, auxVars, known, lifeVars, faults, nextFetch, weff, vq, sp, modeVars, seenVers>>
 
 RevertCall(rid) ==                    \* observable: request BlockByNumber(head.Number)
   /\ rv.on /\ rv.st = "iter" /\ Len(local) > 0 /\ Len(local) - 1 <= rv.lv
   /\ rv' = [rv EXCEPT !.st = "wait", !.v0 = Len(versions), !.rid = rid]
-  /\ UNCHANGED <<srcVars, auxVars, lifeVars, faults, local, cancelled, nextFetch, weff, fq, vq, sp, modeVars, curr, revSince, seenVers>>
+  /\ UNCHANGED <<srcVars, auxVars, clsVars, lifeVars, faults, local, cancelled, nextFetch, weff, fq, vq, sp, modeVars, curr, revSince, seenVers>>
 
 RevertReturn(resp) ==                 \* observable: the answer; compare hashes
   /\ rv.on /\ rv.st = "wait"
   /\ LegalRevertResp(rv.v0, Len(local) - 1, resp, cancelled)
   /\ faults' = faults + BlockRespCost(rv.v0, Len(local) - 1, resp, cancelled)
   /\ seenVers' = Heard(resp)
+  /\ known' = IF resp.r = "err" THEN known ELSE Remember(resp.tag)   \* this BlockByNumber looks classes up as well
   /\ LET realCont == ParentOf(resp.tag) # ParentOf(HeadTag(local)) IN
      CASE resp.r = "err" -> EndTask
        [] resp.r = "ok" ->
@@ -478,23 +573,23 @@ RevertReturn(resp) ==                 \* observable: the answer; compare hashes
                      cont    == (resp.corr = "parent") \/ realCont
                  IN IF differs THEN rv' = [rv EXCEPT !.st = "rev", !.cont = cont] /\ UNCHANGED cancelled
                     ELSE EndTask
-  /\ UNCHANGED <<srcVars, auxVars, lifeVars, local, nextFetch, weff, fq, vq, sp, modeVars, curr, revSince>>
+  /\ UNCHANGED <<srcVars, auxVars, defs, lifeVars, local, nextFetch, weff, fq, vq, sp, modeVars, curr, revSince>>
 
 RevertDo ==                           \* RevertHead took effect after a hash comparison
   /\ rv.on /\ rv.st = "rev"
   /\ RevertHeadOp
   /\ AfterRevert(rv.cont, "compare")
-  /\ UNCHANGED <<srcVars, auxVars, lifeVars, faults, nextFetch, weff, fq, vq, sp, modeVars, seenVers>>
+  /\ UNCHANGED <<srcVars, auxVars, known, lifeVars, faults, nextFetch, weff, vq, sp, modeVars, seenVers>>
 
 RevertAck ==                          \* observable: Reverted(b) (OnReorg)
   /\ rv.on /\ rv.st = "ack"
   /\ rv' = [rv EXCEPT !.st = IF rv.cont THEN "iter" ELSE "fin"]
-  /\ UNCHANGED <<srcVars, auxVars, lifeVars, faults, local, cancelled, nextFetch, weff, fq, vq, sp, modeVars, curr, revSince, seenVers>>
+  /\ UNCHANGED <<srcVars, auxVars, clsVars, lifeVars, faults, local, cancelled, nextFetch, weff, fq, vq, sp, modeVars, curr, revSince, seenVers>>
 
 RevertEnd ==                          \* defer resetStreams()
   /\ rv.on /\ rv.st = "fin"
   /\ rv' = NoRv /\ cancelled' = TRUE
-  /\ UNCHANGED <<srcVars, auxVars, lifeVars, faults, local, nextFetch, weff, fq, vq, sp, modeVars, curr, revSince, seenVers>>
+  /\ UNCHANGED <<srcVars, auxVars, clsVars, lifeVars, faults, local, nextFetch, weff, fq, vq, sp, modeVars, curr, revSince, seenVers>>
 
 -----------------------------------------------------------------------------
 (* Stream reset and the latest-header poller *)
@@ -503,13 +598,13 @@ Restart ==
   /\ cancelled /\ ~stopping /\ fq = <<>> /\ vq = <<>> /\ ~rv.on /\ ~sp.on
   /\ cancelled' = FALSE /\ nextFetch' = Len(local)
   /\ weff' = IF catchUp THEN W ELSE 1
-  /\ UNCHANGED <<srcVars, auxVars, lifeVars, faults, local, fq, vq, rv, sp, modeVars, curr, revSince, seenVers>>
+  /\ UNCHANGED <<srcVars, auxVars, clsVars, lifeVars, faults, local, fq, vq, rv, sp, modeVars, curr, revSince, seenVers>>
 
 PollCall(rid) ==                      \* observable: request BlockHeaderLatest (pollLatest)
   /\ poll.st = "idle" /\ polls < MaxPolls
   /\ (~stopping \/ polls = 0)        \* the first call is made without looking at the context
   /\ poll' = [poll EXCEPT !.st = "wait", !.v0 = Len(versions), !.rid = rid]
-  /\ UNCHANGED <<srcVars, auxVars, lifeVars, faults, local, pipeVars, highest, catchUp, polls, curr, revSince, seenVers>>
+  /\ UNCHANGED <<srcVars, auxVars, clsVars, lifeVars, faults, local, pipeVars, highest, catchUp, polls, curr, revSince, seenVers>>
 
 PollReturn(resp) ==                   \* observable
   /\ poll.st = "wait"
@@ -520,13 +615,13 @@ PollReturn(resp) ==                   \* observable
      THEN poll' = [poll EXCEPT !.st = "got", !.got = IF resp.r = "ok" THEN resp.h ELSE -1]
           /\ UNCHANGED <<highest, polls>>
      ELSE highest' = (IF resp.r = "ok" THEN resp.h ELSE highest) /\ poll' = IdlePoll /\ polls' = polls + 1
-  /\ UNCHANGED <<srcVars, auxVars, lifeVars, local, pipeVars, catchUp, curr, revSince>>
+  /\ UNCHANGED <<srcVars, auxVars, clsVars, lifeVars, local, pipeVars, catchUp, curr, revSince>>
 
 PollApply ==                          \* highestBlockHeader.Store(header)
   /\ poll.st = "got"
   /\ highest' = IF poll.got >= 0 THEN poll.got ELSE highest
   /\ poll' = IdlePoll /\ polls' = polls + 1
-  /\ UNCHANGED <<srcVars, auxVars, lifeVars, faults, local, pipeVars, catchUp, curr, revSince, seenVers>>
+  /\ UNCHANGED <<srcVars, auxVars, clsVars, lifeVars, faults, local, pipeVars, catchUp, curr, revSince, seenVers>>
 
 -----------------------------------------------------------------------------
 (* The node is stopped and started again: the Synchronizer's context is cancelled (which cancels the
@@ -536,7 +631,7 @@ PollApply ==                          \* highestBlockHeader.Store(header)
 Shutdown ==                           \* observable (environment): Stop
   /\ restarts < MaxRestarts /\ ~stopping
   /\ stopping' = TRUE /\ cancelled' = TRUE
-  /\ UNCHANGED <<srcVars, auxVars, restarts, faults, local, nextFetch, weff, fq, vq, rv, sp, modeVars, curr, revSince, seenVers>>
+  /\ UNCHANGED <<srcVars, auxVars, clsVars, restarts, faults, local, nextFetch, weff, fq, vq, rv, sp, modeVars, curr, revSince, seenVers>>
 
 NodeRestart ==                        \* observable (environment): Restart
   /\ stopping /\ fq = <<>> /\ vq = <<>> /\ ~rv.on /\ ~sp.on /\ poll.st = "idle"
@@ -544,8 +639,8 @@ NodeRestart ==                        \* observable (environment): Restart
   /\ cancelled' = FALSE /\ nextFetch' = Len(local) /\ weff' = 1
   /\ highest' = -1 /\ catchUp' = FALSE /\ polls' = 0
   /\ curr' = NoReorg /\ revSince' = <<>>
-  /\ memo' = {}
-  /\ UNCHANGED <<srcVars, tainted, faults, local, fq, vq, rv, sp, poll, seenVers>>
+  /\ memo' = {} /\ known' = {}
+  /\ UNCHANGED <<srcVars, tainted, defs, faults, local, fq, vq, rv, sp, poll, seenVers>>
 
 Budget(c) == faults + c <= MaxFaults
 
@@ -553,7 +648,8 @@ Budget(c) == faults + c <= MaxFaults
 FetchReturnAny(i) ==
   /\ fq[i].st = "wait"
   /\ \E resp \in BlockResps(fq[i].v0, fq[i].h) :
-       Budget(BlockRespCost(fq[i].v0, fq[i].h, resp, cancelled)) /\ FetchReturn(i, resp)
+       /\ Budget(BlockRespCost(fq[i].v0, fq[i].h, resp, cancelled))
+       /\ FetchReturn(i, resp, IF resp.r = "err" THEN {} ELSE LookupNow(resp.tag), "prod")
 IsRevReturnAny(i) ==
   /\ fq[i].st = "lwait"
   /\ \E resp \in LatestResps(fq[i].v0) : Budget(LatestRespCost(resp, cancelled)) /\ IsRevReturn(i, resp)
@@ -597,6 +693,8 @@ TypeOK ==
   /\ faults \in 0..MaxFaults /\ highest \in -1..(MaxLen - 1)
   /\ weff \in {1, W}
   /\ VerdictPerAnswer => memo = {}
+  /\ defs \in [Classes -> -1..(MaxLen - 1)] /\ known \subseteq Classes
+  /\ ~RememberKnown => known = {}
 
 \* every block of the local chain is a block some version of the source had, with the same ancestry
 LocalIsSourceBlocks ==
@@ -616,6 +714,25 @@ StoreSafe ==
 
 \* ... stated over what the database holds: no block was ever stored with content other than the source's
 StoredOnlyVerified == tainted = {}
+
+(* Classes.  The node's class table is exactly what its chain says: a class has a definition iff a block of the local
+   chain mentions it, stored at the height of the FIRST such block (its declaration).  This is what the engine reads
+   back from the real node after every store and every revert (head state and historical states). *)
+ClassesExact == defs = ExpectedDefs(local)
+\* ... of which the part the property needs: after Store of block b every class b declares / uses is readable
+StoredClassesComplete ==
+  \A k \in 1..Len(local) : \A c \in Mentions(local[k]) : defs[c] # -1 /\ defs[c] <= k - 1
+\* what is handed to Store suffices: every class the block mentions is among NewClasses or in the local state
+NewClassesSufficient ==
+  [][IsStoreStep => Mentions(vq[1].blk) \subseteq (vq[1].nc \cup Known)]_vars
+\* no "known" verdict survives a revert: whatever the fetch layer believes the local state to have - a class it left
+\* out of the NewClasses of an answer that can still reach Store, or one it remembers - the local state has
+Believed(t, nc) == Mentions(t) \ nc
+LiveBeliefs ==
+  IF cancelled \/ rv.on THEN {}
+  ELSE UNION ({Believed(fq[i].blk, fq[i].nc) : i \in {j \in 1..Len(fq) : fq[j].st = "done" /\ fq[j].kind = "block"}}
+              \cup {Believed(vq[i].blk, vq[i].nc) : i \in {j \in 1..Len(vq) : vq[j].kind = "block"}})
+KnownIsCurrent == (known \cup LiveBeliefs) \subseteq Known
 
 HeadMovesOnlyByStoreOrRevert ==
   [][local' # local => (IsStoreStep \/ (IsRevertStep /\ local' = Prefix(local, Len(local) - 1)))]_vars
